@@ -133,3 +133,23 @@ def disjunction_atoms(t, var):
         else:
             return None
     return frozenset(out)
+
+
+def cmp_is(t, op, a, b):
+    """t is the comparison `a op b`, in either orientation"""
+    if t[0] != 'cmp':
+        return False
+    if t[1] == op and t[2] == a and t[3] == b:
+        return True
+    return op in FLIP and t[1] == FLIP[op] and t[2] == b and t[3] == a
+
+
+def cmp_parts(t, x):
+    """for a comparison involving x return (op, other) with x on the left"""
+    if t[0] != 'cmp':
+        return None
+    if t[2] == x:
+        return t[1], t[3]
+    if t[3] == x and t[1] in FLIP:
+        return FLIP[t[1]], t[2]
+    return None
